@@ -274,6 +274,145 @@ fn experiment(s: &Scenario, j: u64, post: &Model) -> Verdict {
     verdict
 }
 
+/// Iterators that are older than the table: created (and advanced one step) before the table is
+/// grown underneath them, then drained on their own thread while the writer of scenario `s` is
+/// suspended at its step `j`. They reach every bin through a forwarding marker.
+fn old_iterators(s: &Scenario, j: u64, post: &Model) -> Verdict {
+    use std::sync::atomic::{AtomicU8, Ordering};
+    let (map, pre) = build(s);
+    let phase = Arc::new(AtomicU8::new(0));
+    let result: Arc<std::sync::Mutex<Option<Result<u64, String>>>> = Arc::new(std::sync::Mutex::new(None));
+    let (m, ph, res, pre2, post2) = (map.clone(), phase.clone(), result.clone(), pre.clone(), post.clone());
+    let prober = Actor::spawn("old-iterators", 2, |_| {}, move || {
+        let g = m.guard();
+        let mut it = m.iter(&g);
+        let ks = m.keys(&g);
+        let vs = m.values(&g);
+        let mut seen_i: BTreeMap<u64, u32> = BTreeMap::new();
+        let mut seen_k: BTreeMap<u64, u32> = BTreeMap::new();
+        let mut nvals = 0usize;
+        if let Some((k, _)) = it.next() {
+            *seen_i.entry(*k).or_insert(0) += 1;
+        }
+        // (iter() has taken one step and may stand inside a bin of the old table; keys() and
+        // values() have not looked at the table yet and will meet forwarding markers only)
+        ph.store(1, Ordering::SeqCst);
+        let t0 = std::time::Instant::now();
+        while ph.load(Ordering::SeqCst) != 2 && t0.elapsed().as_secs() < 60 {
+            std::thread::yield_now();
+        }
+        let cap = 8 * (pre2.len() + 16);
+        let mut n = 0u64;
+        let r = (|| {
+            for (k, v) in it {
+                *seen_i.entry(*k).or_insert(0) += 1;
+                n += 1;
+                if pre2.get(k) != Some(v) && post2.get(k) != Some(v) {
+                    return Err(format!("an iterator created before the table grew yielded ({k}, {v}), which is neither the state before nor after the writer's operation"));
+                }
+                if n as usize > cap {
+                    return Err("an iterator created before the table grew does not end".to_string());
+                }
+            }
+            for k in ks {
+                *seen_k.entry(*k).or_insert(0) += 1;
+                n += 1;
+                if n as usize > 2 * cap {
+                    return Err("keys() created before the table grew does not end".to_string());
+                }
+            }
+            for _ in vs {
+                nvals += 1;
+                n += 1;
+                if n as usize > 3 * cap {
+                    return Err("values() created before the table grew does not end".to_string());
+                }
+            }
+            for (k, v) in &pre2 {
+                let untouched = post2.get(k) == Some(v);
+                for (name, seen) in [("iter()", &seen_i), ("keys()", &seen_k)] {
+                    let c = seen.get(k).copied().unwrap_or(0);
+                    if c > 1 || (untouched && c != 1) {
+                        return Err(format!("{name} created before the table grew yielded key {k} {c} times (the writer's operation {} it)", if untouched { "does not touch" } else { "touches" }));
+                    }
+                }
+            }
+            let untouched = pre2.iter().filter(|(k, v)| post2.get(k) == Some(v)).count();
+            if nvals < untouched || nvals > pre2.len().max(post2.len()) {
+                return Err(format!("values() created before the table grew yielded {nvals} values, {untouched} entries are untouched"));
+            }
+            Ok(n)
+        })();
+        *res.lock().unwrap() = Some(r);
+    });
+    let t0 = std::time::Instant::now();
+    while phase.load(Ordering::SeqCst) != 1 {
+        if t0.elapsed().as_secs() > 20 || prober.is_done() {
+            prober.abandon();
+            return Verdict::Inconclusive("the iterating thread did not create its iterators".into());
+        }
+        std::thread::yield_now();
+    }
+    {
+        let g = map.guard();
+        map.reserve(pre.len() * 8 + 200, &g);
+    }
+    let m = map.clone();
+    let op = s.op;
+    let writer = Actor::spawn("writer", 1, |g| g.arm_step(j), move || op(&m));
+    let frozen = match writer.wait_frozen_or_done(20_000) {
+        Ok(f) => f,
+        Err(e) => {
+            phase.store(2, Ordering::SeqCst);
+            return Verdict::Inconclusive(e);
+        }
+    };
+    let frozen_site = writer.gate.frozen_site.load(Ordering::SeqCst);
+    phase.store(2, Ordering::SeqCst);
+    let verdict = match prober.wait_done(30_000) {
+        Ok(()) => {
+            let steps = prober.gate.steps.load(Ordering::SeqCst);
+            let locks = prober.gate.lock_sites.load(Ordering::SeqCst);
+            match result.lock().unwrap().take() {
+                _ if locks > 0 => Verdict::Violation(format!("iterators created before the table grew reached {locks} lock/park site(s) while the writer was suspended at step {j} (site {frozen_site})")),
+                Some(Ok(n)) => Verdict::Ok(n, steps),
+                Some(Err(e)) => Verdict::Violation(format!("with the writer suspended at step {j} (site {frozen_site}): {e}")),
+                None => Verdict::Violation(format!("the iterating thread panicked with the writer suspended at step {j} (site {frozen_site})")),
+            }
+        }
+        Err(_) => {
+            let s1 = prober.gate.steps.load(Ordering::SeqCst);
+            std::thread::sleep(std::time::Duration::from_secs(2));
+            let s2 = prober.gate.steps.load(Ordering::SeqCst);
+            let st = prober.thread_state();
+            if frozen && (s2 > s1 + 100_000 || (s1 == s2 && st == 'S') || (s1 == s2 && st == 'R')) {
+                Verdict::Violation(format!(
+                    "iterators created before the table grew did not finish while the writer was suspended at step {j} (site {frozen_site}): thread state {st}, {} instrumented steps in 2 s (iteration must not wait for a writer)",
+                    s2 - s1
+                ))
+            } else {
+                Verdict::Inconclusive(format!("old iterators slow at step {j}: steps {s1} -> {s2}, state {st}"))
+            }
+        }
+    };
+    writer.gate.release();
+    match &verdict {
+        Verdict::Ok(..) => {
+            let _ = prober.join();
+            if writer.wait_done(20_000).is_err() {
+                return Verdict::Inconclusive(format!("writer did not finish after being released at step {j}"));
+            }
+            let _ = writer.join();
+        }
+        _ => {
+            prober.abandon();
+            writer.abandon();
+            std::mem::forget(map);
+        }
+    }
+    verdict
+}
+
 /// A reader holds the tree read lock, a writer is parked waiting for it; other reads still run.
 fn third_party(out: &mut Outcome, nkeys: u64) -> Result<(), String> {
     let m: Arc<UMap> = Arc::new(HashMap::with_capacity_and_hasher(64, HB::new(CONSTANT)));
@@ -386,7 +525,16 @@ pub fn run(ctx: &Ctx) -> Outcome {
             out.evaluations += 1;
             out.add("suspension_points", 1);
             out.distinct.insert(fnv(fnv(FNV_OFFSET ^ 12, si as u64), j));
-            match experiment(s, j, &post) {
+            let mut v = experiment(s, j, &post);
+            // scenarios on tree bins: also iterators that are older than the table
+            if matches!(v, Verdict::Ok(..)) && s.name.contains("tree") && !s.name.contains("reserve") {
+                out.add("old_iterator_experiments", 1);
+                if let Verdict::Ok(n, _) = &v {
+                    out.add("probes", *n);
+                }
+                v = old_iterators(s, j, &post);
+            }
+            match v {
                 Verdict::Ok(n, rsteps) => {
                     out.add("probes", n);
                     out.max("max_own_steps_of_a_read_battery", rsteps as f64);
